@@ -192,7 +192,12 @@ def random_runs(ctx, pool, cov, runs, judge_graphs=False):
             rr["graphout"] = os.path.join(tdir, "graphs-%d.ndjson" % i)
         reqs.append(dict(mode="random", rand=rr, _i=i))
     results = {}
-    pool.run_all(reqs, lambda q, r: results.__setitem__(q["_i"], r), chunk=1)
+    old_to = pool.request_timeout
+    pool.request_timeout = 900      # a long run is one request
+    try:
+        pool.run_all(reqs, lambda q, r: results.__setitem__(q["_i"], r), chunk=1)
+    finally:
+        pool.request_timeout = old_to
     agg = cov.setdefault("random_runs", dict(runs=0, statements=0, events=0, recoveries=0, crash_in_log=0, crash_idle=0, flushes=0,
                                              max_rows_in_a_table=0, max_tree_levels=0, graphs_judged_by_tlc=0, cache_full_discarded=0,
                                              traces_accepted_by_tlc=0, tlc_states=0))
